@@ -528,6 +528,7 @@ class HomeKitConnection:
         """
         if not self.protocol:
             raise AccessoryDisconnectedError("Connection lost before request could be sent")
+        transport = self.transport
 
         # WARNING: It is vital that a Host: header is present or some devices
         # will reject the request.
@@ -556,6 +557,11 @@ class HomeKitConnection:
         async with self._concurrency_limit:
             if not self.protocol:
                 raise AccessoryDisconnectedError("Tried to send while not connected")
+            if self.transport is not transport:
+                # The connection this request was issued on was lost while the
+                # request waited for its turn and a new one is being set up: the
+                # request must not go out on it (it may not even be encrypted yet)
+                raise AccessoryDisconnectedError("Connection was replaced before request could be sent")
             logger.debug("%s: raw request: %r", self.connected_host, request_bytes)
             resp = await self.protocol.send_bytes(request_bytes)
 
